@@ -745,6 +745,55 @@ fn downs(a: felt252) -> (bool, bool, bool) {
 """
 
 
+def circuits():
+    """Self-checking circuits: every gate DAG of depth <= 3 over {add, sub, mul} on two inputs (plus an inverse), all
+    intermediate gates exposed as outputs and compared with u256 modular arithmetic computed in Cairo (modulus 2^64-59,
+    inputs reduced below it, so the u256 products cannot overflow)."""
+    ops = ["add", "sub", "mul"]
+    o = ["use core::circuit::{AddInputResultTrait, CircuitElement, CircuitInput, CircuitInputs, CircuitModulus, "
+         "CircuitOutputsTrait, EvalCircuitTrait, circuit_add, circuit_inverse, circuit_mul, circuit_sub, u384, u96};\n"
+         "const P: u256 = 18446744073709551557;\n"
+         "fn m_add(a: u256, b: u256) -> u256 { (a + b) % P }\nfn m_sub(a: u256, b: u256) -> u256 { (a + P - b) % P }\n"
+         "fn m_mul(a: u256, b: u256) -> u256 { (a * b) % P }\n"
+         "fn lim(v: u256) -> [u96; 4] { let f: felt252 = v.low.into(); [f.try_into().unwrap(), 0, 0, 0] }\n"
+         "fn eq(a: u384, v: u256) -> bool { let w: u256 = a.try_into().unwrap(); w == v }\n"]
+    k = 0
+    import itertools
+    # shapes: g1 = op1(x, y); g2 = op2(g1, z2) with z2 in {x, y, g1}; g3 = op3(g2, z3) with z3 in {x, g1, g2}
+    triples = [("add", "add", "add"), ("add", "add", "mul"), ("add", "sub", "add"), ("sub", "add", "sub"), ("sub", "sub", "mul"),
+               ("mul", "add", "add"), ("mul", "sub", "add"), ("add", "mul", "add"), ("mul", "mul", "mul"), ("sub", "mul", "sub")]
+    for op1, op2, op3 in triples:
+        for z2, z3 in [("x", "g1"), ("g1", "g2")]:
+            k += 1
+            def ce(z):
+                return {"x": "in0", "y": "in1", "g1": "g1", "g2": "g2"}[z]
+            def me(z):
+                return {"x": "x", "y": "y", "g1": "v1", "g2": "v2"}[z]
+            o.append(
+                "fn chk_c%d(a: u64, b: u64) -> bool {\n"
+                "    let x: u256 = a.into() %% P; let y: u256 = b.into() %% P;\n"
+                "    let in0 = CircuitElement::<CircuitInput<0>> {}; let in1 = CircuitElement::<CircuitInput<1>> {};\n"
+                "    let g1 = circuit_%s(in0, in1); let g2 = circuit_%s(g1, %s); let g3 = circuit_%s(g2, %s);\n"
+                "    let v1 = m_%s(x, y); let v2 = m_%s(v1, %s); let v3 = m_%s(v2, %s);\n"
+                "    let modulus = TryInto::<_, CircuitModulus>::try_into([18446744073709551557, 0, 0, 0]).unwrap();\n"
+                "    let outs = (g3, g2, g1).new_inputs().next(lim(x)).next(lim(y)).done().eval(modulus).unwrap();\n"
+                "    eq(outs.get_output(g1), v1) && eq(outs.get_output(g2), v2) && eq(outs.get_output(g3), v3)\n"
+                "}\n" % (k, op1, op2, ce(z2), op3, ce(z3), op1, op2, me(z2), op3, me(z3)))
+    # an inverse in the middle: inv(x + y) * (x - y), defined when x + y != 0 mod P
+    o.append(
+        "fn chk_cinv(a: u64, b: u64) -> bool {\n"
+        "    let x: u256 = a.into() % P; let y: u256 = b.into() % P;\n"
+        "    let in0 = CircuitElement::<CircuitInput<0>> {}; let in1 = CircuitElement::<CircuitInput<1>> {};\n"
+        "    let s = circuit_add(in0, in1); let i = circuit_inverse(s); let d = circuit_sub(in0, in1); let m = circuit_mul(i, d);\n"
+        "    let modulus = TryInto::<_, CircuitModulus>::try_into([18446744073709551557, 0, 0, 0]).unwrap();\n"
+        "    match (m, i, s).new_inputs().next(lim(x)).next(lim(y)).done().eval(modulus) {\n"
+        "        Result::Ok(outs) => { let ivv: u256 = outs.get_output(i).try_into().unwrap();\n"
+        "            m_add(x, y) != 0 && m_mul(ivv, m_add(x, y)) == 1 && eq(outs.get_output(m), m_mul(ivv, m_sub(x, y))) },\n"
+        "        Result::Err(_) => m_add(x, y) == 0,\n"
+        "    }\n}\n")
+    return "".join(o)
+
+
 def files():
     out = []
     for n, t, mk, flags in TYPES:
@@ -757,6 +806,7 @@ def files():
     out.append(("z_gas", GAS))
     out.append(("z_consts", CONSTS))
     out.append(("z_bounded", BOUNDED))
+    out.append(("z_circuit", circuits()))
     return out
 
 
